@@ -50,6 +50,7 @@ pub const KINDS: &[&str] = &[
     "cw_syndrome",     // 43 (a crafted syndrome vector realised in the EC part: LFSR-consistent with discrepancies)
     "cw_coset",        // 44 (errors on complete cosets of a multiplicative subgroup: binomial / sparse locators)
     "history",         // 45 (separator between consecutive calls of a history)
+    "cw_impostor",     // 46 (received data codewords replaced by those ANOTHER valid message would have put there)
 ];
 
 pub fn kind_id(name: &str) -> u8 {
